@@ -33,22 +33,9 @@ Definition out_matches_spec (out : sarr) (s : res (dense Z)) : bool :=
 Definition admissible_z (m f : Z) : bool :=
   admissible Z Z.eqb (op_z m) (ufunc_cast m) (sup_z m) f.
 
-(* 0 inside the proved domain | 11 gcxs_axes_nonempty | 12 gcxs_axes_distinct *)
-Definition clause_of (m : Z) (x : coo Z) (isg : bool) (ax : axis_arg) : Z :=
-  let sh := c_shape x in
-  let ndim := zlen sh in
-  match norm_axes ndim ax with
-  | Raise _ => 0
-  | Ok nax =>
-    if isg && negb (gcxs_axes_nonempty nax) then 11
-    else if isg && negb (gcxs_axes_distinct nax) then 12
-    else 0
-  end.
-
 (* 0 agree
    1 in the domain: implementation = Spec but <> the model's representation (model unfaithful)
    2 in the domain: implementation <> Spec                        (a failing input)
-   11/12 outside the domain (named clause): implementation <> Spec (a failing input of that class)
    6 in the domain: result not in canonical form
    8 inadmissible reduction: the implementation did not raise ValueError
    9 malformed input literal
@@ -60,11 +47,10 @@ Definition judge_reduce (c : rcase) : Z :=
   | Some x =>
     let isg := match inp with SGcxs _ => true | _ => false end in
     let spec := np_reduce_dense Z (op_z m) (ufunc_cast m) (ufunc_ident m) ax keepdims (todense x) 0 in
-    let cl := clause_of m x isg ax in
     if negb (out_matches_spec npout spec) then 10
     else if negb (admissible_z m (c_fill x)) then
       match out with SExc ValueError => 0 | _ => 8 end
-    else if cl =? 0 then
+    else
       let model := match inp with
                    | SGcxs g => gcxs_reduce_z m ax keepdims g
                    | _ => reduce_coo_z m ax keepdims x
@@ -74,10 +60,9 @@ Definition judge_reduce (c : rcase) : Z :=
         if out_matches_spec out spec then (if sarr_wfb out && sarr_prunedb out then 0 else 6)
         else 2
       else if out_matches_spec out spec then 1 else 2
-    else if out_matches_spec out spec then 0 else cl
   end.
 
-(* branch tag of a case, for the coverage histogram: 100*clause + 10*path + kind
+(* branch tag of a case, for the coverage histogram: 10*path + kind
    path 0 coo | 1 gcxs flatten path | 2 gcxs re-compress path ; kind 0 plain | 1 super *)
 Definition tag_reduce (c : rcase) : Z :=
   let '(m, inp, ax, keepdims, out, npout) := c in
@@ -93,7 +78,7 @@ Definition tag_reduce (c : rcase) : Z :=
                   | Raise _ => 2
                   end
                 else 0 in
-    100 * clause_of m x isg ax + 10 * path + (if is_none (sup_z m) then 0 else 1)
+    10 * path + (if is_none (sup_z m) then 0 else 1)
   end.
 
 (* kernel level: _grouped_reduce(data, groups, method) on raw arrays.
